@@ -255,7 +255,25 @@ func c14Worker(c *core.Collector, x *Ctx) {
 		// guaranteed here, so only grid steps of 5.6 s / 0.5 s are used after an initial alignment read
 		for step := 0; step < 6; step++ {
 			age(b, int64(core.Pick(r, []int{5600, 11200})))
-			feed(b, hb(uint16(500+step)))
+			if r.Chance(1, 3) {
+				// the inbound data that lets the server look at its timers is itself a sub-package: a duplicate of a packet
+				// (number >= 2) that one of the transfers already holds
+				t := trs[r.Intn(len(trs))]
+				k := 2 + r.Intn(t.N-1)
+				held := true
+				for _, m := range t.missing {
+					if m == k {
+						held = false
+					}
+				}
+				if held {
+					feed(b, hookFrame(false, t.id, uint16(700+step), true, uint16(t.N), uint16(k), t.bodies[k-1]))
+				} else {
+					feed(b, hb(uint16(500+step)))
+				}
+			} else {
+				feed(b, hb(uint16(500+step)))
+			}
 			if r.Chance(1, 3) {
 				t := trs[r.Intn(len(trs))]
 				if len(t.missing) > 0 {
